@@ -25,7 +25,7 @@ func init() {
 			"ES5.1 errata / web divergences are not asserted beyond the envelope of both readings: splice(start) with deleteCount omitted (0 vs len-start), length of the array created by concat/slice/splice when it ends in holes, the type of the length pop() stores on a generic object (String per ES5.1 text vs Number)",
 			"sort is checked by relation (permutation, holes deleted at the end, undefined after defined, ordered w.r.t. the comparator) and only where 15.4.4.11 defines the behaviour",
 			"the [[Enumerable]] attribute of String wrapper index properties is masked (String exotic object: property C09)",
-			"every loop is capped at 2^16 model steps; costlier cases are skipped before otto is run",
+			"every loop is capped at 2^12 model steps; costlier cases are skipped before otto is run",
 		},
 		CaseTimeoutS: 10,
 		Floor: func(tier string) int {
